@@ -294,7 +294,7 @@ def handle (line : String) : String :=
         | some (sh, []) =>
           let a := parseSheet vfs h sh
           match a.val with
-          | .ok loaded => shRes (resolveImports vfs h loaded) false ++ " | " ++ shFLog a.log
+          | .ok loaded => shRes (resolveImports vfs .user h loaded) false ++ " | " ++ shFLog a.log
           | .error e => "PARSE-" ++ showErr e
         | _ => "bad-op"
       | _, _ => "bad-op"
